@@ -5,7 +5,7 @@ import (
 	"go/constant"
 	"go/token"
 
-	"golang.org/x/tools/go/ssa"
+	"ikeverif/checker/xt/ssa"
 )
 
 func isAppendCall(v ssa.Value) *ssa.Call {
